@@ -69,26 +69,29 @@ func daYunChain(c *Ctx, r *Report, rule string) {
 			if !isF || structName(fa.X.Type()) != "DaYun" {
 				return
 			}
-			_, base := fr.origin(fa.X)
-			key := fmt.Sprintf("%p/%p/%d", fr, base, len(objs))
-			if fieldKeyOf(fa) == "DaYun.yun" || byBase[fmt.Sprintf("%p/%p", fr, base)] == 0 {
-				// the first store to a new object
-				if _, seen := byBase[fmt.Sprintf("%p/%p", fr, base)]; !seen || fieldKeyOf(fa) == "DaYun.yun" {
-					objs = append(objs, map[string]interface{}{})
-					byBase[fmt.Sprintf("%p/%p", fr, base)] = len(objs)
-				}
+			// one object per allocation passed: the allocating instruction in the activation that ran it
+			ofr, base := fr.origin(fa.X)
+			key := fmt.Sprintf("%p/%p", ofr, base)
+			if byBase[key] == 0 {
+				objs = append(objs, map[string]interface{}{})
+				byBase[key] = len(objs)
 			}
-			_ = key
 			if !ok {
 				v = "?"
 			}
-			objs[byBase[fmt.Sprintf("%p/%p", fr, base)]-1][fieldKeyOf(fa)] = v
+			objs[byBase[key]-1][fieldKeyOf(fa)] = v
 		}
 		return &objs
 	}
 	compare := func(obj map[string]interface{}, i int64) string {
 		w := want(i)
 		var diff []string
+		// a field a composite literal leaves out holds zero
+		for _, f := range append([]string{"DaYun.index"}, fields...) {
+			if _, stored := obj[f]; !stored {
+				obj[f] = int64(0)
+			}
+		}
 		if obj["DaYun.index"] != interface{}(i) {
 			diff = append(diff, fmt.Sprintf("index = %v", obj["DaYun.index"]))
 		}
